@@ -21,6 +21,7 @@ SERVER_FACING = [
     "Flow::<B, RecvBody>::read", "Flow::<B, RecvBody>::stop_on_chunk_boundary", "Flow::<B, RecvBody>::is_on_chunk_boundary",
     "Flow::<B, RecvBody>::body_mode", "Flow::<B, RecvBody>::can_proceed", "Flow::<B, RecvBody>::proceed",
     "Flow::<B, Redirect>::status", "Flow::<B, Redirect>::must_close_connection", "Flow::<B, Redirect>::close_reason", "Flow::<B, Redirect>::proceed",
+    "Flow::<B, Redirect>::as_new_flow",      # state-advancing call that consumes the server's Location text
     "Flow::<B, Cleanup>::must_close_connection", "Flow::<B, Cleanup>::close_reason",
     "Call::<RecvResponse, B>::try_response", "Call::<RecvResponse, B>::is_finished", "Call::<RecvResponse, B>::into_body",
     "Call::<RecvBody, B>::read", "Call::<RecvBody, B>::stop_on_chunk_boundary", "Call::<RecvBody, B>::is_on_chunk_boundary",
@@ -417,5 +418,12 @@ def rule_decoder_contract(ctx):
     c07.rule_transitions(ctx)
 
 
-RULES = [rule_inventory, rule_decoder_contract, rule_counts, rule_output_provenance, rule_no_hang]
+def rule_redirect_premise(ctx):
+    """the reviewed discharge of the resolver's `expect("base uri to be a url")` rests on R14.2/R14.3 (the URI a redirected
+    request carries derives only from url::Url::join and is written only by as_new_flow): they are run here"""
+    from . import rules_redirect
+    rules_redirect.rule_c14(ctx)
+
+
+RULES = [rule_inventory, rule_decoder_contract, rule_counts, rule_output_provenance, rule_no_hang, rule_redirect_premise]
 THOROUGH_RULES = [rule_clippy_crossref]
